@@ -18,7 +18,7 @@ def compile_and_run(workdir: str, header_text: str, main_body: str, name: str = 
 		f.write(f'#include "{os.path.join(HERE, "prelude.h")}"\n#include "{hpath}"\nint main() {{\n{main_body}\n\treturn 0;\n}}\n')
 	cc = subprocess.run(['clang++', '-std=c++20', '-O0', '-w', '-o', exe, cpath], capture_output=True, text=True, timeout=timeout)
 	if cc.returncode != 0:
-		return {'compiled': False, 'stderr': cc.stderr[-2000:], 'stdout': '', 'rc': cc.returncode}
+		return {'compiled': False, 'stderr': cc.stderr[-2000:], 'stderr_full': cc.stderr, 'stdout': '', 'rc': cc.returncode}
 	run = subprocess.run([exe], capture_output=True, text=True, timeout=timeout)
 	for p in (exe,):
 		try:
